@@ -75,11 +75,148 @@ def gen_cp_history(rng):
     return ops
 
 
+OFFS = [0, 0.25, 0.5, 0.75, 1]        # ATTACH_POS_TOP / LEFT = 0, ATTACH_POS_CENTRE = 0.5, ATTACH_POS_BOTTOM / RIGHT = 1
+DIRS = [0, 1, 2, 4, 8, 12, 15]        # ConnDirNone, Up, Down, Left, Right, Left|Right, All
+
+
+def fmt(v):
+    return ('%g' % v)
+
+
+def pin_line(key, excl):
+    cls, dirs, xo, yo, inside = key
+    return '%d %s %s %d %d %s' % (cls, fmt(xo), fmt(yo), dirs, excl, fmt(inside))
+
+
+def pin_args(rng, junction):
+    """arguments of an N op and the key the owner's pin set orders by (class, directions, x, y, inside offset)"""
+    if junction:
+        key = (rng.choice([7, 8]), rng.choice(DIRS[1:]), 0, 0, 0)
+    else:
+        key = (rng.choice([7, 7, 8]), rng.choice(DIRS), rng.choice(OFFS), rng.choice(OFFS), rng.choice([0, 0, 3]))
+    return pin_line(key, rng.below(2)), key
+
+
+def same_shape_explicit(a, b):
+    """both ends on one shape and at least one of them through an explicit (N-made, class >= 7) pin class: the two ends may resolve to
+    one pin, i.e. a connector from a point to itself (outside the domain, like a connector from a junction to itself)"""
+    a, b = a.split(), b.split()
+    return a[0] == 'S' and b[0] == 'S' and a[1] == b[1] and (int(a[2]) >= 7 or int(b[2]) >= 7)
+
+
+def gen_pin_history(rng):
+    """directed at connection pins as first-class objects: several pins of one class on one shape that share the x offset, the y
+    offset or the whole position (differing only in direction flags / inside offset), junction pins, connectors attached to the
+    class; then delete second-then-first / first-then-second / the pin in use / the owning shape, with and without transactions and
+    reroutes in between, re-creation of a deleted pin, and delete router with or without a final transaction"""
+    orth = rng.below(2)
+    trans = 1 if rng.chance(2, 3) else 0
+    ops = ['R %d %d' % (orth, trans), 'S 1 %d %d %d %d %d' % (150 + 50 * rng.below(2), 100 + 50 * rng.below(2), 40 + 20 * rng.below(3), 40 + 20 * rng.below(3), 1 + rng.below(2)),
+           'S 2 %d %d 30 30 1' % (rng.choice([0, 350]), rng.choice([0, 300]))]
+    junc = rng.chance(1, 3)
+    if junc:
+        ops.append('J 5 %d %d' % (rng.choice([60, 330]), rng.choice([200, 40])))
+    if rng.chance(1, 2):
+        ops.append('T')
+    cls = 7
+    i0 = rng.below(5)
+    a, b = OFFS[i0], OFFS[(i0 + 1 + rng.below(4)) % 5]
+    c = rng.choice(OFFS)
+    d = rng.choice(DIRS)
+    ins = rng.choice([0, 0, 3])
+    fam = rng.below(6)
+    if fam == 0:      # same class, same x, different y (two ports on one side)
+        keys = [(cls, d, c, a, ins), (cls, d, c, b, ins)]
+    elif fam == 1:    # same y, different x
+        keys = [(cls, d, a, c, ins), (cls, d, b, c, ins)]
+    elif fam == 2:    # identical position, different direction flags
+        d2 = rng.choice([x for x in DIRS if x != d])
+        keys = [(cls, d, c, a, ins), (cls, d2, c, a, ins)]
+    elif fam == 3:    # identical position and directions, different inside offset / class
+        keys = [(cls, d, c, a, 0), (cls, d, c, a, 3)] if rng.chance(1, 2) else [(cls, d, c, a, ins), (cls + 1, d, c, a, ins)]
+    elif fam == 4:    # a column and a row sharing a corner
+        keys = [(cls, d, 0, 0, ins), (cls, d, 0, 1, ins), (cls, d, 1, 0, ins)]
+    else:             # random distinct pins
+        keys = []
+        while len(keys) < rng.range(2, 4):
+            k = pin_args(rng, False)[1]
+            k = (cls,) + k[1:] if rng.chance(2, 3) else k
+            if k not in keys:
+                keys.append(k)
+    if rng.chance(1, 2):
+        keys.reverse()
+    pid = 200
+    live = []                # (handle, owner, key)
+    for k in keys:
+        pid += 1
+        ops.append('N 1 %d %s' % (pid, pin_line(k, rng.below(2))))
+        live.append((pid, 1, k))
+    if junc and rng.chance(2, 3):
+        for k in ([(7, 4, 0, 0, 0), (7, 8, 0, 0, 0)] if rng.chance(1, 2) else [(7, 1, 0, 0, 0), (8, 1, 0, 0, 0)]):
+            pid += 1
+            ops.append('N 5 %d %s' % (pid, pin_line(k, rng.below(2))))
+            live.append((pid, 5, k))
+    if rng.chance(1, 3):
+        ops.append('T')
+    kcls = keys[0][0]
+    far = ['P %d %d' % (rng.range(0, 400), rng.range(0, 400)), 'S 2 1'] + (['J 5'] if junc else [])
+    ops.append('C 10 S 1 %d %s' % (kcls, rng.choice(far)))
+    conns = [10]
+    if rng.chance(1, 2):
+        ops.append('C 11 %s S 1 %d' % (rng.choice(far[:2]), kcls))
+        conns.append(11)
+    if junc and any(o == 5 for _, o, _ in live) and rng.chance(1, 2):
+        ops.append('C 12 J 5 P %d %d' % (rng.range(0, 400), rng.range(0, 400)))
+        conns.append(12)
+    if rng.chance(3, 4):
+        ops.append('T')
+    shape_gone = False
+    for _ in range(rng.range(2, 5)):
+        k = rng.below(9)
+        mine = [x for x in live if not (shape_gone and x[1] == 1)]
+        if k <= 2 and mine:                              # delete a pin: last created / first created / any
+            x = mine[-1] if k == 0 else (mine[0] if k == 1 else rng.choice(mine))
+            live.remove(x)
+            ops.append('XN %d' % x[0])
+        elif k == 3 and not shape_gone:
+            ops.append('M 1 %d %d' % (rng.range(-20, 20), rng.range(-20, 20)))
+        elif k == 4 and not shape_gone and (not trans or 'T' in ops):     # (no add + delete of one object in one transaction)
+            ops.append('D 1')
+            shape_gone = True
+            live = [x for x in live if x[1] != 1]
+        elif k == 5 and not shape_gone:                  # re-create a pin (the key of a deleted one, or a new one)
+            key = rng.choice(keys)
+            if all(not (x[1] == 1 and x[2] == key) for x in live):
+                pid += 1
+                ops.append('N 1 %d %s' % (pid, pin_line(key, rng.below(2))))
+                live.append((pid, 1, key))
+        elif k == 6 and conns:
+            ops.append('I %d' % rng.choice(conns))
+        elif k == 7 and conns and not shape_gone:
+            c0 = rng.choice([c for c in conns if c in (10, 11)] or [10])
+            if c0 in conns:                              # re-point the end that is on shape 1 already (never both ends on one shape)
+                ops.append('E %d %d S 1 %d' % (c0, 0 if c0 == 10 else 1, kcls))
+        elif k == 8 and conns:
+            c0 = rng.choice(conns)
+            conns.remove(c0)
+            ops.append('X %d' % c0)
+        if rng.chance(2, 3):
+            ops.append('T')
+    if rng.chance(1, 2):
+        ops.append('T')
+    ops.append('Q')
+    return ops
+
+
 def gen_history(rng, max_steps=30, family='generic'):
     orth = rng.below(2)
     trans = 1 if rng.chance(3, 4) else 0
     ops = ['R %d %d' % (orth, trans)]
     shapes, juncs, conns = [], [], []
+    pins = {}              # explicit pin handle -> (owner, key); key = what the pin set's order compares
+    pinkeys = {}           # owner -> set of keys in use (incl. the pins the harness creates with S / J)
+    classes = {}           # shape -> explicit pin classes currently present
+    npin = [200]
     fresh = set()          # shapes added since the last processTransaction (must not be deleted before it)
     cends = {}             # connector -> its two ends as last set
     nid = [1]
@@ -92,6 +229,8 @@ def gen_history(rng, max_steps=30, family='generic'):
         k = rng.below(10)
         if shapes and k < 5:
             s = rng.choice(shapes)
+            if classes.get(s[0]) and rng.chance(1, 2):
+                return 'S %d %d' % (s[0], rng.choice(sorted(classes[s[0]])))
             return 'S %d %d' % (s[0], 2 if (s[1] >= 2 and rng.chance(1, 2)) else 1)
         if juncs and k < 7:
             return 'J %d' % rng.choice(juncs)
@@ -99,19 +238,36 @@ def gen_history(rng, max_steps=30, family='generic'):
 
     steps = rng.range(5, max_steps)
     for _ in range(steps):
-        op = rng.below(13)
+        op = rng.below(16)
         if op == 0 or len(shapes) < 2:
             i = newid()
             np = 1 + rng.below(2)
             ops.append('S %d %d %d %d %d %d' % (i, rng.below(8) * 50, rng.below(8) * 50, 20 + rng.below(3) * 10, 20 + rng.below(3) * 10, np))
             shapes.append((i, np))
+            pinkeys[i] = set([(1, 0, 0.5, 0.5, 0)] + ([(2, 8, 1, 0.5, 3)] if np >= 2 else []))
             if trans:
                 fresh.add(i)
+        elif op in (13, 14):
+            owners = [s[0] for s in shapes] + juncs
+            o = rng.choice(owners)
+            line, key = pin_args(rng, o in juncs)
+            if key not in pinkeys.setdefault(o, set()):
+                npin[0] += 1
+                pinkeys[o].add(key)
+                pins[npin[0]] = (o, key)
+                if o not in juncs:
+                    classes.setdefault(o, set()).add(key[0])
+                ops.append('N %d %d %s' % (o, npin[0], line))
+        elif op == 15 and pins:
+            pid = rng.choice(sorted(pins))
+            o, key = pins.pop(pid)
+            pinkeys[o].discard(key)
+            ops.append('XN %d' % pid)
         elif op in (1, 2):
             i = newid()
             a, b = end(), end()
-            if a == b and a[0] == 'J':
-                b = 'P %d %d' % (rng.range(0, 400), rng.range(0, 400))   # no connector from a junction to itself
+            if (a == b and a[0] == 'J') or same_shape_explicit(a, b):
+                b = 'P %d %d' % (rng.range(0, 400), rng.range(0, 400))   # no connector from a junction to itself / from a shape's port class to the same shape
             ops.append('C %d %s %s' % (i, a, b))
             conns.append(i)
             cends[i] = [a, b]
@@ -124,13 +280,15 @@ def gen_history(rng, max_steps=30, family='generic'):
                 s = rng.choice(cand)
                 ops.append('D %d' % s[0])
                 shapes.remove(s)
+                for pid in [q for q in pins if pins[q][0] == s[0]]:
+                    del pins[pid]                  # ~Obstacle frees them: the client gives its handles up
         elif op == 5 and conns:
             c = rng.choice(conns)
             ops.append('X %d' % c)
             conns.remove(c)
         elif op == 6 and conns:
             c, w, e = rng.choice(conns), rng.below(2), end()
-            if e[0] == 'J' and cends[c][1 - w] == e:
+            if (e[0] == 'J' and cends[c][1 - w] == e) or same_shape_explicit(e, cends[c][1 - w]):
                 e = 'P %d %d' % (rng.range(0, 400), rng.range(0, 400))   # no connector from a junction to itself (also not via setEndpoint)
             cends[c][w] = e
             ops.append('E %d %d %s' % (c, w, e))
@@ -141,6 +299,7 @@ def gen_history(rng, max_steps=30, family='generic'):
             i = newid()
             ops.append('J %d %d %d' % (i, rng.range(0, 400) + 15, rng.range(0, 400) + 15))
             juncs.append(i)
+            pinkeys[i] = set([(2147483646, 15, 0, 0, 0)])
             if trans:
                 fresh.add(i)
         elif op == 10 and family != 'nojdel':
@@ -149,6 +308,8 @@ def gen_history(rng, max_steps=30, family='generic'):
                 j = rng.choice(cand)
                 ops.append('DJ %d' % j)
                 juncs.remove(j)
+                for pid in [q for q in pins if pins[q][0] == j]:
+                    del pins[pid]
         elif op == 11 and conns:
             ops.append(k_op(rng.choice(conns), cp_points(rng, rng.below(4))))
         elif op == 12 and conns:
